@@ -104,6 +104,43 @@ func pointerLike(t types.Type) bool {
 	return false
 }
 
+// indirect: the type is itself a reference to other memory (as opposed to a
+// struct or array that merely contains one).
+func indirect(t types.Type) bool {
+	switch t.Underlying().(type) {
+	case *types.Pointer, *types.Slice, *types.Map, *types.Chan, *types.Interface, *types.Signature:
+		return true
+	}
+	return false
+}
+
+// fieldStores: every value the reach set stores into field f of struct type
+// owner (given as the struct or a pointer to it).
+func (a *Analysis) fieldStores(owner types.Type, f int) []ssa.Value {
+	if p, ok := owner.Underlying().(*types.Pointer); ok {
+		owner = p.Elem()
+	}
+	var vals []ssa.Value
+	for _, fn := range a.Reach {
+		for _, b := range fn.Blocks {
+			for _, in := range b.Instrs {
+				st, ok := in.(*ssa.Store)
+				if !ok {
+					continue
+				}
+				fa2, ok := st.Addr.(*ssa.FieldAddr)
+				if !ok || fa2.Field != f {
+					continue
+				}
+				if p, ok := fa2.X.Type().Underlying().(*types.Pointer); ok && types.Identical(p.Elem(), owner) {
+					vals = append(vals, st.Val)
+				}
+			}
+		}
+	}
+	return vals
+}
+
 func (a *Analysis) isEntry(fn *ssa.Function) bool {
 	for _, e := range a.Entry {
 		if e == fn {
@@ -238,7 +275,16 @@ func (a *Analysis) root(v ssa.Value) (bool, string) {
 	case *ssa.IndexAddr:
 		return a.Root(x.X)
 	case *ssa.Field:
-		return a.Root(x.X)
+		if s, w := a.Root(x.X); s {
+			return true, w
+		}
+		if indirect(x.Type()) {
+			// a pointer held in a field of a struct value taken out of fresh
+			// memory is not itself fresh: it is whatever the reach set stores
+			// into that field of that struct type
+			return a.join(a.fieldStores(x.X.Type(), x.Field)...)
+		}
+		return false, ""
 	case *ssa.Index:
 		return a.Root(x.X)
 	case *ssa.Slice:
@@ -309,6 +355,15 @@ func (a *Analysis) root(v ssa.Value) (bool, string) {
 					case *ssa.Store:
 						if u.Val == ssa.Value(al) {
 							escaped = true
+						}
+						if u.Addr == ssa.Value(al) {
+							// the whole struct assigned at once (a range copy, a
+							// composite literal): the field holds what that value's
+							// field holds
+							if s, w := a.Root(u.Val); s {
+								return true, w
+							}
+							vals = append(vals, a.fieldStores(al.Type(), fa.Field)...)
 						}
 					}
 				}
